@@ -619,6 +619,29 @@ class RecShape(Shape):
         return f"Rec({self.kind})"
 
 
+class OptShape(Shape):
+    """``None`` or a value of the inner shape (decided by a nondeterministic choice: one path each)."""
+
+    def __init__(self, inner: Shape) -> None:
+        self.inner = inner
+
+    def fresh(self, name: str) -> Any:
+        return None if ctx().choose(2) == 0 else self.inner.fresh(name)
+
+    def __repr__(self) -> str:
+        return f"Opt({self.inner!r})"
+
+
+class ConstShape(Shape):
+    """A variable that is re-assigned in a loop but whose value the contract fixes (e.g. a flag)."""
+
+    def __init__(self, *values: Any) -> None:
+        self.values = values
+
+    def fresh(self, name: str) -> Any:
+        return self.values[ctx().choose(len(self.values))]
+
+
 class ListShape(Shape):
     def __init__(self, elem: Shape) -> None:
         self.elem = elem
